@@ -911,9 +911,12 @@ def _extreme(vals, which, nan):
     cache = c.caches.setdefault("extreme", {})
     k = (which, tuple(v.p.key() for v in vals))
     if k not in cache:
-        xs = [c.eval(v.p) for v in vals]
-        xs = [z.real if isinstance(z, complex) else z for z in xs]
-        val = max(xs) if which == "max" else min(xs)
+        xs = [c.eval_or_none(v.p) for v in vals]
+        if any(z is None for z in xs):
+            val = None
+        else:
+            xs = [z.real if isinstance(z, complex) else z for z in xs]
+            val = max(xs) if which == "max" else min(xs)
         m = c.new_var(f"{which}{len(c.vars)}", "aux", val, f"{which} of {len(vals)} values")
         prod = None
         for v in vals:
@@ -1396,5 +1399,5 @@ def sym_array(shape, name, complex_=False, values=None, kind="input"):
     for idx in np.ndindex(*shape):
         nm = name + "".join(f"_{i}" for i in idx)
         v = None if values is None else values[idx]
-        a[idx] = fresh_complex(nm, kind, v) if complex_ else fresh(nm, kind, None if v is None else float(v))
+        a[idx] = fresh_complex(nm, kind, v) if complex_ else fresh(nm, kind, None if v is None else float(np.real(v)))
     return SymArray(a, C128 if complex_ else F64)
